@@ -105,6 +105,8 @@ def gen_value(e, r, allow_clear=True, short=False):
     if base == 'origin' and r['type'] == 'PatchHeader':
         cats = [None, 'backport', 'vendor', 'upstream', 'other']; ck = e.prog.enum_lookup('OriginCategory', 'dep3'); ok_ = e.prog.enum_lookup('Origin', 'dep3')
         c = cats[e.choose('cat', len(cats))]; kind = ['Commit', 'Other'][e.choose('ok', 2)]; t = tok(e, 'o', 2, digit if kind == 'Commit' else lower)
+        if kind == 'Other' and c is None and not short and e.choose('catlike', 2):
+            t = Str(o(['vendor', 'upstream', 'backport', 'other'][e.choose('cl', 4)]) + [44] + list(t.chars))      # 'vendor,x': no blank after the comma, so not a category prefix
         v.args = [SOME(EnumV(ck, c.capitalize())) if c else NONE(), EnumV(ok_, kind, [t])]; v.js = [c, [kind, t]]
         v.expect = ('origin', c, kind, t); return v
     a = at[0]; k = KIND.get(a)
@@ -116,7 +118,7 @@ def gen_value(e, r, allow_clear=True, short=False):
         t = Str([]) if (not short and e.choose('emptyv', 2)) else tok(e, 's')
         v.args = [wrap(t)]; v.js = [t]; v.expect = ('str', t) if t.chars else ('any',)
     elif k == 'bool':
-        b = bool(e.choose('b', 2)); v.args = [b]; v.js = [b]; v.expect = ('bool', b)
+        b = bool(e.choose('b', 2)); v.args = [b]; v.js = [b]; v.expect = ('bool', b); v.removes = bool(r.get('removes'))
     elif k == 'usize':
         n = e.fresh_int('n'); e.assume(z3.And(n >= 0, n < 1000000)); v.args = [n]; v.js = [n]; v.expect = ('usize', n)
     elif k == 'rel':
@@ -304,7 +306,7 @@ class C15(Harness):
                    'parsed family: every getter whose return type has a documented raw form reads a hand-written field: strings, relations (one-line and folded), lists in the documented layouts (comma lists with ", " / "," / folded; space lists on one line and folded; line lists), yes/no, decimal sizes, versions, enum keywords, urls, timestamps, checksum lines; the DEP-3 description is the first line of a two-line value',
                    'find family: control files of 1-3 paragraphs, each a Source, Package or other paragraph (solver choice), names symbolic; source()/binaries() and add_source (on files without a source paragraph) / add_binary',
                    'views are opened on the first paragraph of a parsed document (copyright views: header / first Files paragraph of a parsed copyright file)']
-    oracle_leniency = ['bool setters called with false may either remove the field or store a negative flag, provided the getter reads false', 'a new field may be placed anywhere in the paragraph; an existing one must stay where it was']
+    oracle_leniency = ['bool setters called with false may either remove the field or store a negative flag, provided the getter reads false; a setter whose body calls remove() is a clearing setter and must remove the field whatever its prior value', 'a new field may be placed anywhere in the paragraph; an existing one must stay where it was']
 
     def table(self):
         t = [r for r in accessors.table() if (r['crate'], r['module'], r['type']) in gen_accessors.RUST_TYPE]
@@ -541,7 +543,9 @@ class C15(Harness):
         same = len(a_rest) == len(b_rest) and b_and(*[veq(e, Str(x), Str(y)) for x, y in zip(a_rest, b_rest)])
         cs.append(('%s: every line outside field %s is unchanged' % (setter, field), same))
         if val.clear: cs.append(('%s(None): the field %s is removed' % (setter, field), a_n == 0))
-        elif val.expect[0] == 'bool' and val.expect[1] is False: cs.append(('%s(false): at most one field %s' % (setter, field), a_n <= 1))
+        elif val.expect[0] == 'bool' and val.expect[1] is False:
+            if getattr(val, 'removes', False): cs.append(('%s(false): the field %s is removed (the setter is a clearing setter)' % (setter, field), a_n == 0))
+            else: cs.append(('%s(false): at most one field %s' % (setter, field), a_n <= 1))
         else: cs.append(('%s: the value is stored in exactly one field named %s' % (setter, field), a_n == 1))
         return cs
 
@@ -587,7 +591,8 @@ class C15(Harness):
             if clear:
                 if a_n != 0: v.append(('not-removed:' + tag, '%s(None) leaves %r' % (s, after['text'])))
             elif exp is False:
-                if a_n > 1: v.append(('field-count:' + tag, '%s(false) leaves %d fields %s' % (s, a_n, fld)))
+                if acc.get('removes') and a_n != 0: v.append(('not-removed:' + tag, '%s(false) is a clearing setter but leaves %r' % (s, after['text'])))
+                elif a_n > 1: v.append(('field-count:' + tag, '%s(false) leaves %d fields %s' % (s, a_n, fld)))
             elif a_n != 1: v.append(('field-count:' + tag, 'after %s(%r) the paragraph has %d fields named %s: %r' % (s, stp['args'], a_n, fld, after['text'])))
             if k == 1 and accs[0]['getter'] and w['fields'][0] != w['fields'][1]:
                 g0 = accs[0]['getter']; got0 = after['get'].get(g0)
